@@ -110,6 +110,70 @@ func runResolve(mode string, o *observed) (status, first string, errs []posErr) 
 	return "err", "0:0: " + err.Error(), []posErr{{syntax.Position{}, err.Error()}}
 }
 
+// evalNear runs the real scanner, parser and (if it parses) resolver on a
+// near-miss text and fills in the record; key / pfx name the distribution counters.
+func evalNear(c *NearCase, kind string, src []byte, baseErased, key, pfx string) {
+	mo := observe(kind, src)
+	var bad []string
+	check := func(what string, p syntax.Position) {
+		if !validPos(p, src) {
+			bad = append(bad, fmt.Sprintf("%s error position %d:%d is not inside the text", what, p.Line, p.Col))
+		}
+	}
+	if mo.scanErr != nil {
+		c.ScanErr = errString(mo.scanErr)
+		if e, ok := mo.scanErr.(syntax.Error); ok {
+			check("scanner", e.Pos)
+		} else {
+			bad = append(bad, "scanner error without position")
+		}
+	} else {
+		c.Tokens = realTokensCoq(mo.toks)
+	}
+	if mo.err != nil {
+		c.Parse = "err"
+		c.Err = errString(mo.err)
+		if e, ok := mo.err.(syntax.Error); ok {
+			c.ErrPos = fmt.Sprintf("%d:%d", e.Pos.Line, e.Pos.Col)
+			check("parser", e.Pos)
+			if strings.HasPrefix(e.Msg, "internal error") {
+				bad = append(bad, "parser internal error: "+e.Msg)
+			}
+		} else {
+			bad = append(bad, "parser error without position")
+		}
+	} else {
+		c.Parse = "ok"
+		c.Got = mo.got
+		if mo.bad != "" {
+			bad = append(bad, mo.bad)
+		}
+		if mo.scanErr != nil {
+			bad = append(bad, "parser accepted a text the scanner rejects")
+		}
+		c.SameAsBase = erasePos(mo.got) == baseErased
+		var errs []posErr
+		c.Resolve, c.ResolveErr, errs = runResolve(kind, mo)
+		for _, e := range errs {
+			check("resolver", e.pos)
+		}
+		if c.Resolve == "panic" {
+			bad = append(bad, "resolver panics: "+c.ResolveErr)
+		}
+	}
+	if len(bad) > 0 {
+		c.OK, c.Why = false, strings.Join(bad, "; ")
+		dist[pfx+":NOT-OK"]++
+	}
+	dist[key+":parse-"+c.Parse]++
+	if c.Parse == "ok" {
+		dist[pfx+":resolve-"+c.Resolve]++
+		if c.SameAsBase {
+			dist[pfx+":same-as-base"]++
+		}
+	}
+}
+
 // nearBase builds a small valid case laid out plainly on single lines.
 func nearBase(kind string, rc *hx.Rand) (*built, *observed) {
 	for {
@@ -231,66 +295,7 @@ func modeNear(n int, fam *hx.Rand) {
 					continue
 				}
 				c := NearCase{Kind: "near", Mode: kind, Base: i, Mut: fmt.Sprintf("%s@%d", km, at), BaseSrc: string(b.src), Src: text, Coq: b.coq, OK: true}
-				src := []byte(text)
-				mo := observe(kind, src)
-				var bad []string
-				check := func(what string, p syntax.Position) {
-					if !validPos(p, src) {
-						bad = append(bad, fmt.Sprintf("%s error position %d:%d is not inside the text", what, p.Line, p.Col))
-					}
-				}
-				if mo.scanErr != nil {
-					c.ScanErr = errString(mo.scanErr)
-					if e, ok := mo.scanErr.(syntax.Error); ok {
-						check("scanner", e.Pos)
-					} else {
-						bad = append(bad, "scanner error without position")
-					}
-				} else {
-					c.Tokens = realTokensCoq(mo.toks)
-				}
-				if mo.err != nil {
-					c.Parse = "err"
-					c.Err = errString(mo.err)
-					if e, ok := mo.err.(syntax.Error); ok {
-						c.ErrPos = fmt.Sprintf("%d:%d", e.Pos.Line, e.Pos.Col)
-						check("parser", e.Pos)
-						if strings.HasPrefix(e.Msg, "internal error") {
-							bad = append(bad, "parser internal error: "+e.Msg)
-						}
-					} else {
-						bad = append(bad, "parser error without position")
-					}
-				} else {
-					c.Parse = "ok"
-					c.Got = mo.got
-					if mo.bad != "" {
-						bad = append(bad, mo.bad)
-					}
-					if mo.scanErr != nil {
-						bad = append(bad, "parser accepted a text the scanner rejects")
-					}
-					c.SameAsBase = erasePos(mo.got) == baseErased
-					var errs []posErr
-					c.Resolve, c.ResolveErr, errs = runResolve(kind, mo)
-					for _, e := range errs {
-						check("resolver", e.pos)
-					}
-					if c.Resolve == "panic" {
-						bad = append(bad, "resolver panics: "+c.ResolveErr)
-					}
-				}
-				if len(bad) > 0 {
-					c.OK, c.Why = false, strings.Join(bad, "; ")
-					dist["near:NOT-OK"]++
-				}
-				dist["near:"+kind+":"+km+":parse-"+c.Parse]++
-				if c.Parse == "ok" {
-					dist["near:resolve-"+c.Resolve]++
-					if c.SameAsBase {
-						dist["near:same-as-base"]++
-					}
-				}
+				evalNear(&c, kind, []byte(text), baseErased, "near:"+kind+":"+km, "near")
 				hx.Emit(c)
 			}
 		}
